@@ -25,11 +25,36 @@ func (c *Ctx) MustPass(rule, construct string, from Loc, target ssa.Instruction,
 		return false
 	}
 	if path := FindPath(from, target, cut); path != nil {
+		// second opinion: prune self-contradictory paths (repeated tests of the same value)
+		ps := c.P.FindPathPS(from, func(in ssa.Instruction) bool { return in == target }, cut, nil)
+		if ps == nil {
+			c.Ok(rule, construct, target.Pos(), "in %s every consistent path to the target passes: %s (paths avoiding it contradict an earlier test of the same value)", c.P.FnName(fn), what)
+			return true
+		}
 		c.Bad(rule, construct, target.Pos(), "in %s a path reaches the target without passing the guard (%s): %s",
-			c.P.FnName(fn), what, c.P.PathString(path))
+			c.P.FnName(fn), what, c.P.PathString(ps.Path))
 		return false
 	}
 	c.Ok(rule, construct, target.Pos(), "in %s every path to the target passes: %s", c.P.FnName(fn), what)
+	return true
+}
+
+// NilOnlyVia is the phi-edge form of K1: value v, used by instruction `use`, can be nil
+// there only on paths that cross the cut.
+func (c *Ctx) NilOnlyVia(rule, construct string, v ssa.Value, use ssa.Instruction, cut *Cut, what string) bool {
+	fn := use.Parent()
+	c.Touch(fn)
+	if cut == nil || cut.Size() == 0 {
+		c.Bad(rule, construct, use.Pos(), "guard not found in %s: %s", c.P.FnName(fn), what)
+		return false
+	}
+	ps := c.P.FindPathPS(Entry(fn), func(in ssa.Instruction) bool { return in == use }, cut,
+		func(env *PSEnv, _ ssa.Instruction) bool { return env.MayBeNil(v) })
+	if ps != nil {
+		c.Bad(rule, construct, use.Pos(), "in %s the value can be nil without passing the guard (%s): %s", c.P.FnName(fn), what, c.P.PathString(ps.Path))
+		return false
+	}
+	c.Ok(rule, construct, use.Pos(), "in %s the value is nil only on paths through: %s", c.P.FnName(fn), what)
 	return true
 }
 
